@@ -235,7 +235,11 @@ func c03Round(r *verifkit.Run, inst *c03Instance, round int, nHosts int) {
 	// wait for that second, then fire everything at once: the requests reach the aggregator
 	// while their seconds are inside its recent window even on a loaded machine.
 	genDur := time.Since(tGen)
-	lead := int64(3) + int64(5*genDur/(2*time.Second)) // serialising costs about as much as generating
+	if os.Getenv("VERIF_C03_GENONLY") != "" { // profiling aid: generation only
+		r.T.Logf("C03 instance %d round %d: plans=%d gen=%.1fs (generation only)", inst.Idx, round, len(plans), genDur.Seconds())
+		return
+	}
+	lead := int64(3) + min(int64(5*genDur/(2*time.Second)), 40) // serialising costs at most about as much as generating
 	if inst.lastBuild > 0 {
 		lead = 2 + int64(3*inst.lastBuild/(2*time.Second))
 	}
